@@ -534,9 +534,9 @@ func runC05(r *rt.Runner) {
 			return &jT{Kind: kObject, InlineName: name, Inline: &jDecl{Kind: kObject, Fields: []*jF{fld("label", tScalar(kString))}}}
 		}
 		bundles := map[string]*jBundle{
-			"self-reference":      elemsBundle(objDecl("Node", fld("next", tRef(kObject, "Node", "iso.v1.Node")), fld("kids", tArr(tRef(kObject, "Node", "iso.v1.Node"))))),
-			"nested-same-as-top":  elemsBundle(objDecl("Item", fld("name", tScalar(kString))), objDecl("Holder", fld("inner", inner("Item")), fld("outer", tRef(kObject, "Item", "iso.v1.Item")))),
-			"nested-named-parent": elemsBundle(objDecl("Holder", fld("inner", inner("Holder")))),
+			"self-reference":          elemsBundle(objDecl("Node", fld("next", tRef(kObject, "Node", "iso.v1.Node")), fld("kids", tArr(tRef(kObject, "Node", "iso.v1.Node"))))),
+			"nested-same-as-top":      elemsBundle(objDecl("Item", fld("name", tScalar(kString))), objDecl("Holder", fld("inner", inner("Item")), fld("outer", tRef(kObject, "Item", "iso.v1.Item")))),
+			"nested-named-parent":     elemsBundle(objDecl("Holder", fld("inner", inner("Holder")))),
 			"two-parents-same-nested": elemsBundle(objDecl("Left", fld("part", inner("Part"))), objDecl("Right", fld("part", inner("Part")))),
 			"nested-refers-parent":    elemsBundle(objDecl("Tree", fld("branch", &jT{Kind: kObject, Inline: &jDecl{Kind: kObject, Fields: []*jF{fld("tree", tRef(kObject, "Tree", "iso.v1.Tree"))}}}))),
 		}
@@ -555,6 +555,13 @@ func runC05(r *rt.Runner) {
 	for b := 0; b < r.Scale(300, 8000); b++ {
 		r.Do(fmt.Sprintf("bundle/%d", b), func(c *rt.C) {
 			bundle := detBundle(c.Rand())
+			// extras.proto uses options it declares itself; the harness re-links printed text through
+			// protodesc, which knows registered extensions only, so that file cannot be re-printed here
+			for p := range bundle.Protos {
+				if strings.HasSuffix(p, "/extras.proto") {
+					delete(bundle.Protos, p)
+				}
+			}
 			if b%2 == 0 {
 				decorate(bundle)
 			}
@@ -562,6 +569,42 @@ func runC05(r *rt.Runner) {
 			c.Feature("c05:random")
 		})
 	}
+	// hand-shaped proto3 files: option values nested 1 … 8 levels deep (the constraint messages of the validate
+	// library are recursive), repeated and map-typed option fields, every scalar kind of option value
+	r.Do("synthetic-options", func(c *rt.C) {
+		var sb strings.Builder
+		sb.WriteString("syntax = \"proto3\";\n\npackage synth.v1;\n\nimport \"buf/validate/validate.proto\";\nimport \"j5/ext/v1/annotations.proto\";\nimport \"j5/list/v1/annotations.proto\";\n\n// Deep option values\nmessage Deep {\n")
+		n := 0
+		for depth := 1; depth <= 8; depth++ {
+			chain := strings.Repeat("repeated.items.", depth-1)
+			n++
+			fmt.Fprintf(&sb, "  repeated string list_%d = %d [(buf.validate.field).%sstring.min_len = %d];\n", depth, n, chain, depth)
+			chain = strings.Repeat("map.values.", depth-1)
+			n++
+			fmt.Fprintf(&sb, "  map<string, string> map_%d = %d [(buf.validate.field).%sstring = {min_len: %d, pattern: \"^a{%d}$\"}];\n", depth, n, chain, depth, depth)
+		}
+		n++
+		fmt.Fprintf(&sb, "  string key_%d = %d [(j5.list.v1.field).string.foreign_key.uuid.filtering = {filterable: true, default_filters: [\"a\", \"b\"]}];\n", n, n)
+		n++
+		fmt.Fprintf(&sb, "  repeated int64 nums = %d [(buf.validate.field).repeated = {min_items: 1, unique: true, items: {int64: {in: [1, 2, 3], not_in: [4]}}}];\n", n)
+		n++
+		fmt.Fprintf(&sb, "  double ratio = %d [(buf.validate.field).double = {gt: 0.1, lte: 3.141592653589793}];\n", n)
+		n++
+		fmt.Fprintf(&sb, "  bytes blob = %d [(buf.validate.field).bytes = {prefix: \"\\x00\\xff\\\"q\", min_len: 1}];\n", n)
+		sb.WriteString("}\n")
+		src := map[string]string{"synth/v1/deep.proto": sb.String()}
+		ct, err := compileProtoText(src)
+		if err != nil {
+			c.Feature("c05:synthetic-does-not-compile/" + errSig(err))
+			return
+		}
+		f, err := ct.Files.FindFileByPath("synth/v1/deep.proto")
+		if err != nil {
+			return
+		}
+		c05CheckFiles(c, []protoreflect.FileDescriptor{f}, nil, "synthetic-options", "synthetic-options", nil)
+		c.Feature("c05:synthetic-options")
+	})
 	// every hand-written proto3 file in the repository's proto/ tree
 	r.Do("repo-protos", func(c *rt.C) {
 		root := os.Getenv("VERIF_REPO_DIR")
